@@ -11,7 +11,11 @@
 //!           message variants, other messages / other keys, s + k·L re-encodings
 //!           (k = 1..15 while < 2^256); plus the small-order family: 14 encodings of
 //!           the 8 torsion points (8 canonical + 6 non-canonical) as public key and/or
-//!           R, with s ∈ {0, L}, and mixed with honest keys / honest signatures.
+//!           R, with s ∈ {0, L}, and mixed with honest keys / honest signatures; and for
+//!           every seed × message the constructed signature R = small-order encoding
+//!           (8 canonical), s = SHA512(R‖A‖M)·a mod L, which for R = identity satisfies
+//!           the cofactorless equation under the honest key (self-checked: plain
+//!           verification accepts it, strict rejects it).
 //!   VM      every (signature, message[, key]) above is also executed as one
 //!           ECK1 / ECR1 / ED19 instruction on a prepared interpreter (operands in the
 //!           heap, output area pre-filled with 0xAA).
@@ -131,6 +135,7 @@ struct Acc {
     samples: Vec<(String, Value)>,
     vm: Option<VmBox>,
     ed_discriminating: u64,
+    ed_forged_identity_r: u64,
 }
 
 impl Acc {
@@ -177,6 +182,7 @@ fn merge(t: &mut Acc, p: Acc) {
         t.sample(&s, || v);
     }
     t.ed_discriminating += p.ed_discriminating;
+    t.ed_forged_identity_r += p.ed_forged_identity_r;
 }
 
 // ------------------------------------------------------------------ VM side
@@ -811,6 +817,63 @@ fn ed_unit(seeds: &[[u8; 32]], msgs: &[Vec<u8>], ki: usize, mi: usize, acc: &mut
         sg[..32].copy_from_slice(&tp);
         eval_ed("small-order-R", &pk, &sg, msg, acc);
     }
+    // signatures constructed to satisfy [s]B = R + [k]A with a small-order R and the
+    // honest key: s = k*a mod L. With R = identity the cofactorless equation holds
+    // (plain verification accepts, strict rejects R); with the other seven canonical
+    // small-order encodings it cannot hold, they are included all the same.
+    for (ti, t) in TORSION.iter().take(8).enumerate() {
+        let r_enc: [u8; 32] = hexarr(t);
+        let sg = ed_forge_small_order_r(&seeds[ki], &pk, msg, &r_enc);
+        if ti == 0 {
+            // machinery self-check: this vector must discriminate strict from plain
+            let (strict, loose) = ed_reference(&pk, &sg, msg);
+            assert!(
+                loose && !strict,
+                "harness self-check: identity-R vector must be accepted by Verifier::verify and rejected by verify_strict \
+                 (seed {} msg {} sig {}: plain={loose} strict={strict})",
+                hex::encode(seeds[ki]),
+                hex::encode(msg),
+                hex::encode(sg)
+            );
+            acc.ed_forged_identity_r += 1;
+            acc.sample("ed:identity-R", || {
+                json!({"scheme": "ed25519", "class": "small-order-R", "construction": "R = identity, s = SHA512(R|A|M) * a mod L",
+                       "pk": hex::encode(pk), "sig": hex::encode(sg), "msg": hex::encode(msg), "verify_strict": strict, "non_strict_verify": loose})
+            });
+        }
+        eval_ed("small-order-R", &pk, &sg, msg, acc);
+    }
+}
+
+/// (R, s) with s = k*a mod L, k = SHA-512(R | A | M) mod L, a = clamped lower half of
+/// SHA-512(seed); all scalars little-endian (RFC 8032 section 5.1.5 / 5.1.6).
+fn ed_forge_small_order_r(seed: &[u8; 32], pk: &[u8; 32], msg: &[u8], r_enc: &[u8; 32]) -> [u8; 64] {
+    use sha2::{
+        Digest,
+        Sha512,
+    };
+    let l = big_hex(ED_L);
+    let h = Sha512::digest(seed);
+    let mut a = arr::<32>(&h[..32]);
+    a[0] &= 248;
+    a[31] &= 127;
+    a[31] |= 64;
+    a.reverse();
+    let a = Big::from_be(&a);
+    let mut hh = Sha512::new();
+    hh.update(r_enc);
+    hh.update(pk);
+    hh.update(msg);
+    let mut k = hh.finalize().to_vec();
+    k.reverse();
+    let k = Big::from_be(&k).divrem(&l).1;
+    let s = k.mul(&a).divrem(&l).1;
+    let mut sb = arr::<32>(&s.to_be(32));
+    sb.reverse();
+    let mut sig = [0u8; 64];
+    sig[..32].copy_from_slice(r_enc);
+    sig[32..].copy_from_slice(&sb);
+    sig
 }
 
 /// Small-order public key x small-order R x s in {0, L} for one message.
@@ -1012,6 +1075,10 @@ fn explore(ctx: &Ctx) {
     }
     ctx.set("units_done", json!(done));
     ctx.set("ed25519_cases_where_strict_and_non_strict_differ", json!(total.ed_discriminating));
+    ctx.set(
+        "ed25519_identity_R_vectors_for_honest_keys (self-checked: plain verify accepts, verify_strict rejects)",
+        json!(total.ed_forged_identity_r),
+    );
     total.report(ctx);
 }
 
